@@ -259,11 +259,13 @@ class CRS:
         if self._crs is other._crs:
             return True
 
-        if self._epsg and other._epsg:
-            return self._epsg == other._epsg
-
         if self._str == other._str:
             return True
+
+        # only EPSG codes the objects were constructed with decide: a code
+        # guessed later by ``to_epsg()`` must not change the outcome
+        if self._str.startswith("EPSG:") and other._str.startswith("EPSG:"):
+            return False
 
         return self._crs == other._crs
 
